@@ -445,7 +445,7 @@ def verify_stop_sblocks(run):
     none = K(IntSort(), BoolVal(False))
     G = {'stopped': none, 'tasked': none, 'phase': IntVal(0), 'now': z3.Real('now0')}
     run.verify('Circuit._stop_sblocks', cls='Circuit', ghost=G,
-               invariants={'for blk in async_blocks': inv_stop_async, 'comp[89943a]:for blk in async_blocks': inv_stop_tasks, 'for blk in sync_blocks': inv_stop_sync},
+               invariants={'for blk in async_blocks': inv_stop_async, 'comp[37b1d6]:for blk in async_blocks': inv_stop_tasks, 'for blk in sync_blocks': inv_stop_sync},
                calls={'self.getblocks': sblocks_of, 'blk.has_method': has_method_call, 'blk.stop': lifecycle_call('stop'),
                       'blk.stop_async': coroutine_call('stop_async'), 'asyncio.create_task': create_task_call},
                hooks={'await': awaits({'asyncio.sleep(0)': await_sleep0, '*': await_contracted})})
@@ -521,7 +521,7 @@ def verify_init_async(run):
     none = K(IntSort(), BoolVal(False))
     G = {'tasked': none, 'phase': IntVal(0), 'now': z3.Real('now0')}
     run.verify('Circuit._init_sblocks_async', cls='Circuit', ghost=G,
-               invariants={'comp[d4f3d5]:for blk in self.getblocks(addons.AddonAsync)': inv_init_tasks},
+               invariants={'comp[1c3143]:for blk in self.getblocks(addons.AddonAsync)': inv_init_tasks},
                calls={'self.getblocks': sblocks_of, 'blk.has_method': has_method_call, 'blk.init_async': coroutine_call('init_async'),
                       'asyncio.create_task': create_task_call},
                hooks={'await': awaits({'*': await_contracted})})
